@@ -6,7 +6,11 @@ For each movie the REFERENCE is link_iter with link_strategy='recursive'.  Varia
   prediv      per-axis search_range  vs  coordinates pre-divided by it with search_range = 1
   uniform     coordinates and search_range multiplied by a common power of two
   legacy      trackpy.linking.legacy.link_iter on an iterator of PointND levels (labels read at
-              yield time: the legacy linker later appends remembered points to the yielded list)
+              yield time: the legacy linker later appends remembered points to the yielded list),
+              for neighbor_strategy 'KDTree' and 'BTree' (the hash grid; box_size default /
+              range/2 / range / 1.5 range / 3 range / one odd ratio, hash_size = the data's extent),
+              link_strategy recursive / nonrecursive / auto / drop, and through the deprecated
+              entry point legacy.link (list of levels + hash_generator, returns Track objects)
 Every variant's labelled output is judged by the monitor (`LRUN`; Props/C02 step_optimal,
 Props/C03 strategies_same_cost, drop_unlinks_contested, scale_invariant) and its partition is
 compared with the reference: equal when every step of the reference has a unique optimum, else
@@ -18,10 +22,12 @@ from . import common, linkcommon
 from .common import Result
 
 PROP = "C03"
-RULE = ("C01 movie stream; every movie is run through 6 strategies, 3 entry points, shuffled rows, "
-        "per-axis vs pre-divided coordinates, a uniform power-of-two rescaling and the legacy "
-        "linker.  Non-trivial = the reference run has at least one contested sub-net or memory "
-        "re-link; distinct = distinct canonical movie.")
+RULE = ("C01 movie stream + a stream of sparse movies with long steps in arbitrary directions (range "
+        "4..16 lattice units); every movie is run through 6 strategies, 3 entry points, shuffled rows, "
+        "per-axis vs pre-divided coordinates, a uniform power-of-two rescaling and the legacy linker "
+        "(KDTree; BTree hash grid with 6 box sizes, the movie translated into the grid; 4 link "
+        "strategies; legacy.link_iter and legacy.link).  Non-trivial = the reference run has at least "
+        "one contested sub-net or memory re-link; distinct = distinct canonical movie.")
 ASSUMPTIONS = [
     "integer lattice positions; pre-division uses the same float operation (x / search_range) as "
     "Linker.to_eucl, uniform rescaling uses powers of two: both exact",
@@ -30,8 +36,22 @@ ASSUMPTIONS = [
     "legacy DataFrame wrappers (legacy.link_df / link_df_iter) return NaN labels under pandas 3 "
     "copy-on-write and are not used as observation points (environment incompatibility)",
     "legacy code is not modelled: it is tied by this differential run only",
+    "legacy neighbor_strategy='BTree' is run only where the unchanged code accepts the request: 2-D / "
+    "3-D (get_region raises NotImplementedError otherwise), scalar search_range (Linker raises "
+    "ValueError for per-axis ranges), coordinates inside [0, hash_size) (Out_of_hash_excpt otherwise: "
+    "the movie is translated by an exactly representable vector, which does not change the partition). "
+    "BTree takes candidates with d < search_range (strict) and has no 10-neighbour cap: a pair at "
+    "exactly search_range costs what not linking costs, so this only moves a run between tied optima",
+    "legacy link_strategy='numba' does not exist without numba (ValueError) and is not run",
 ]
 MIN_NONTRIVIAL = 20
+# legacy hash grid: box_size as a multiple of search_range (None = the default, which is search_range);
+# every movie gets the five BOXES and one of ODD_BOXES (box_size is documented as a performance knob:
+# "no matter what the box size" the candidates are the features within search_range)
+BOXES = [("default", None), ("half", 0.5), ("range", 1.0), ("1p5", 1.5), ("3", 3.0)]
+ODD_BOXES = [("third", 1.0 / 3.0), ("0p75", 0.75), ("2p25", 2.25), ("5", 5.0)]
+LEGACY_STRATS = ["recursive", "nonrecursive", "auto"]
+MAX_HASH_CELLS = 1500000      # boxes allocated per legacy BTree run (a fresh grid per level)
 STRATS = ["nonrecursive", "numba", "hybrid", "auto", "drop"]
 
 
@@ -49,6 +69,40 @@ def gen_cases(ctx):
         mv["stream"] = "agree"
         mv["shuffle_seed"] = rng.randrange(10 ** 6)
         yield mv
+    for i in range(ctx.n(40, 300)):
+        yield gen_long_steps(ctx.rng("long-steps", i))
+
+
+def gen_long_steps(rng):
+    """A few features taking LONG steps in arbitrary directions, on a lattice that is fine against the
+    range (search_range 4..16 lattice units; steps of 0.3..1.15 ranges): the candidates that a
+    neighbour search structure (k-d tree, hash grid of any box size) has to find far from the
+    feature's own cell, in every direction.  Sparse, so that exact ties are rare and the partitions
+    themselves are compared."""
+    import math
+    dim = rng.choice([2, 2, 3])
+    R = rng.randint(4, 16)
+    npart = rng.randint(2, 8)
+    nfr = rng.randint(2, 6)
+    side = R * rng.choice([3, 5, 8])
+    pos = [[rng.randrange(side) for _ in range(dim)] for _ in range(npart)]
+    frames = []
+    for k in range(nfr):
+        pts = [list(p) for p in pos if rng.random() < 0.9]
+        rng.shuffle(pts)
+        frames.append(pts)
+        for p in pos:
+            v = [rng.gauss(0, 1) for _ in range(dim)]
+            if rng.random() < 0.4:        # along a diagonal of the lattice
+                v = [rng.choice([-1.0, 1.0]) for _ in range(dim)]
+            nv = math.sqrt(sum(c * c for c in v)) or 1.0
+            L = R * rng.uniform(0.3, 1.15)
+            for i in range(dim):
+                p[i] += int(round(L * v[i] / nv))
+    return dict(dim=dim, frames=frames, t0=rng.choice([0, 0, 3, -2]), sr=[4 * R] * dim, iso=True,
+                scale_pow=rng.choice([0, 0, 0, -8, 10]), default_cols=(rng.random() < 0.3),
+                memory=rng.choice([0, 0, 1, 2]), strategy="recursive", entry="link_iter", missing=[],
+                stream="long-steps", shuffle_seed=rng.randrange(10 ** 6))
 
 
 def partition(levels):
@@ -66,30 +120,147 @@ def partition(levels):
     return frozenset(tuple(sorted(v)) for v in d.values())
 
 
-def run_legacy(inp):
+class LegacySkip(Exception):
+    """the request is outside what the (unchanged) legacy code accepts, or too large to run"""
+
+
+def btree_layout(inp, box_factor):
+    """Where the movie is put for the legacy hash grid: HashTable needs 0 <= pos < hash_size on every
+    axis (Out_of_hash_excpt otherwise), the movies walk to negative coordinates.  Returns (shift in
+    lattice units, hash_size in data units, box_size in data units or None).  The shift is a multiple
+    of a quarter lattice unit (exact in float64 together with the power-of-two scale) and differs per
+    movie and box size, so that box boundaries fall at varying places relative to the features."""
+    import random
+    dim = inp["dim"]
+    f = linkcommon.scale_of(inp)
+    unit = inp.get("fine", 1)
+    rr = random.Random(inp.get("shuffle_seed", 0) * 31 + int(1000 * (box_factor or 0)))
+    allc = [p for pts in inp["frames"] for p in pts] or [[0] * dim]
+    lo = [min(p[i] for p in allc) for i in range(dim)]
+    hi = [max(p[i] for p in allc) for i in range(dim)]
+    shift = [-lo[i] + unit * rr.randrange(0, 48) / 4.0 for i in range(dim)]
+    pad = unit * rr.choice([0.25, 1.0, 7.5])
+    hash_size = [(hi[i] + shift[i] + pad) * f for i in range(dim)]
+    if dim == 3:
+        # UNCHANGED-tree limitation kept out: HashTable.strides is (n1*n2, n1, 1) where row-major
+        # needs (n1*n2, n2, 1) (legacy.py:302); with more boxes along axis 1 than along axis 2 the
+        # box index runs past the table (IndexError in get_region / add_point).  Equal extents
+        # along axes 1 and 2 are what works (trackpy's own 3-D BTree tests use cubes).
+        hash_size[1] = hash_size[2] = max(hash_size[1], hash_size[2])
+    hash_size = tuple(hash_size)
+    rng_data = inp["sr"][0] / 4.0 * f
+    box = None if box_factor is None else rng_data * box_factor
+    cells = 1.0
+    for h in hash_size:
+        cells *= np.ceil(h / (box if box is not None else rng_data))
+    if cells * max(1, len(inp["frames"])) > MAX_HASH_CELLS:
+        raise LegacySkip("grid")
+    return shift, hash_size, box
+
+
+def run_legacy(inp, neighbor="KDTree", strategy="recursive", box=None, entry="link_iter",
+               hash_gen=False):
+    """legacy linker.  neighbor 'BTree': box = box_size / search_range (None: not given); hash_gen:
+    the grid is handed over as `hash_generator` instead of hash_size + box_size; entry 'link' is
+    the deprecated legacy.link (list of levels in, Track objects out)."""
     from trackpy.linking import legacy
     from trackpy.linking.utils import SubnetOversizeException
     dim = inp["dim"]
+    f = linkcommon.scale_of(inp)
     legacy.PointND.reset_counter()
     sr = linkcommon.search_range_arg(inp)
     if not isinstance(sr, tuple):
         sr = (sr,) * dim
+    kw = dict(memory=inp["memory"], neighbor_strategy=neighbor, link_strategy=strategy)
+    shift = [0.0] * dim
+    hgen = None
+    if neighbor == "BTree":
+        if dim not in (2, 3) or not inp.get("iso", True):
+            raise LegacySkip("request")      # NotImplementedError / ValueError in the unchanged code
+        shift, hash_size, box_size = btree_layout(inp, box)
+        if hash_gen or entry == "link":
+            bs = box_size if box_size is not None else sr[0]
+            hgen = lambda: legacy.HashTable(hash_size, bs)
+        else:
+            kw["hash_size"] = hash_size
+            if box_size is not None:
+                kw["box_size"] = box_size
+    t0 = inp["t0"]
+
+    def level(k, pts):
+        return [legacy.PointND(t0 + k, (np.array(p, dtype=float) + shift) * f, id=i)
+                for i, p in enumerate(pts)]
+    levels = []
+    if entry == "link":
+        lv = [level(k, pts) for k, pts in enumerate(inp["frames"])]
+        try:
+            tracks = legacy.link(lv, sr, hgen, **kw)
+        except SubnetOversizeException:
+            return "oversize"
+        lab = {}
+        for tr in tracks:
+            for p in tr.points:
+                lab.setdefault((p.t, p.id), []).append(int(tr.indx))
+        for k, pts in enumerate(inp["frames"]):
+            got = [(i, l) for i in range(len(pts)) for l in lab.get((t0 + k, i), [])]
+            levels.append((t0 + k, [pts[i] for i, _ in got], [l for _, l in got]))
+        return levels
 
     def it():
         for k, pts in enumerate(inp["frames"]):
-            yield [legacy.PointND(inp["t0"] + k, np.array(p, dtype=float) * linkcommon.scale_of(inp))
-                   for p in pts]
-    levels = []
+            yield level(k, pts)
+    if hgen is not None:
+        kw["hash_generator"] = hgen
     try:
-        for k, lvl in enumerate(legacy.link_iter(it(), sr, memory=inp["memory"],
-                                                 link_strategy="recursive")):
-            cur = [p for p in lvl if p.t == inp["t0"] + k]
-            levels.append((inp["t0"] + k,
-                           [[int(round(v / linkcommon.scale_of(inp))) for v in p.pos] for p in cur],
+        for k, lvl in enumerate(legacy.link_iter(it(), sr, **kw)):
+            cur = [p for p in lvl if p.t == t0 + k]
+            levels.append((t0 + k, [inp["frames"][k][p.id] for p in cur],
                            [int(p.track.id) for p in cur]))
     except SubnetOversizeException:
-        levels.append((inp["t0"] + len(levels), inp["frames"][len(levels)], None))
+        levels.append((t0 + len(levels), inp["frames"][len(levels)], None))
     return levels
+
+
+def exact_range_pair(inp):
+    """is some pair of features of levels at most memory + 1 apart at EXACTLY search_range?  (the
+    legacy hash grid takes d < search_range, everything else d <= search_range)"""
+    w, B = linkcommon.weights(inp["sr"])
+    fr = inp["frames"]
+    for k in range(len(fr)):
+        for kk in range(k + 1, min(len(fr), k + inp["memory"] + 2)):
+            for p in fr[k]:
+                for q in fr[kk]:
+                    if sum(wi * (a - b) ** 2 for wi, a, b in zip(w, p, q)) == B:
+                        return True
+    return False
+
+
+def drop_oracle(inp, levels):
+    """the 'drop' clause of the statement, directly on a labelled output: a trajectory is continued
+    only inside an uncontested group (one source, one feature, within search_range of each other and
+    of nothing else).  Returns None or a message."""
+    w, B = linkcommon.weights(inp["sr"])
+    last = {}
+    for k, (t, pts, labels) in enumerate(levels):
+        if labels is None:
+            return None
+        srcs = [(l, p0) for l, (kk, p0) in last.items() if k - kk <= inp["memory"] + 1]
+        near = [[i for i, (_, p0) in enumerate(srcs)
+                 if sum(wi * (a - b) ** 2 for wi, a, b in zip(w, p0, p)) <= B] for p in pts]
+        nfeat = {}
+        for ns in near:
+            for i in ns:
+                nfeat[i] = nfeat.get(i, 0) + 1
+        for j, (p, l) in enumerate(zip(pts, labels)):
+            for i in near[j]:
+                if srcs[i][0] == l and (len(near[j]) > 1 or nfeat[i] > 1):
+                    return ("level %d: trajectory %d is continued although %d trajectories are within "
+                            "search_range of the feature and %d features within search_range of the "
+                            "trajectory's last position (link_strategy='drop' leaves contested groups "
+                            "unlinked)" % (k, l, len(near[j]), nfeat[i]))
+        for p, l in zip(pts, labels):
+            last[l] = (k, p)
+    return None
 
 
 def run_prediv(inp):
@@ -141,6 +312,7 @@ def run_case(ctx, inp):
     ref = linkcommon.run_impl(ref_inp)
     m = common.kv(ctx.ask(linkcommon.lrun_line(ref_inp, ref)))
     res.stat("movies")
+    res.stat("stream_" + str(inp.get("stream", "agree")))
     if m.get("verdict") not in ("ok", "capped", "expect-oversize"):
         reason = str(m.get("reason")).replace("_", " ")
         omsg = linkcommon.oracle_levels(ref_inp, ref)
@@ -166,9 +338,45 @@ def run_case(ctx, inp):
         variants.append(("prediv", None, run_prediv))
     variants.append(("uniform-x4", None, lambda i: run_uniform(dict(i, entry="link_iter", strategy="recursive"), 4)))
     variants.append(("legacy", None, run_legacy))
+    # the other configurations of the legacy linker ("neighbor_strategy available" x link_strategy x
+    # entry point), each judged like "legacy".  Which link strategy / which way of describing the grid
+    # goes with which box size rotates with the movie.
+    h = inp.get("shuffle_seed", 0)
+    legacy_meta = {"legacy": dict(stats=["legacy_kdtree_recursive"], btree=False)}
+
+    def add_legacy(name, stats, **kw):
+        variants.append((name, None, lambda i, kw=kw: run_legacy(i, **kw)))
+        legacy_meta[name] = dict(stats=stats, btree=kw.get("neighbor") == "BTree")
+    for st in ("nonrecursive", "auto", "drop"):
+        add_legacy("legacy:KDTree/" + st, ["legacy_kdtree_" + st], strategy=st)
+    st = LEGACY_STRATS[h % 3]
+    add_legacy("legacy:KDTree/%s+link-entry" % st, ["legacy_kdtree_" + st, "legacy_entry_link"],
+               strategy=st, entry="link")
+    if inp["dim"] in (2, 3) and inp.get("iso", True):
+        # (1-D and per-axis ranges: the unchanged hash grid refuses them, see ASSUMPTIONS)
+        if exact_range_pair(inp):
+            res.stat("legacy_btree_movies_with_pair_at_exact_range")
+        for j, (bn, bf) in enumerate(BOXES + [ODD_BOXES[h % len(ODD_BOXES)]]):
+            st = LEGACY_STRATS[(h + j) % 3]
+            mode = 0 if bf is None else (h // 3 + j) % 4
+            stats = ["legacy_btree_box_" + bn, "legacy_btree_" + st]
+            kw = dict(neighbor="BTree", strategy=st, box=bf)
+            suffix = ""
+            if mode == 2:
+                kw["hash_gen"], suffix = True, "+hash_generator"
+                stats.append("legacy_btree_hash_generator")
+            elif mode == 3:
+                kw["entry"], suffix = "link", "+link-entry"
+                stats.append("legacy_entry_link")
+            add_legacy("legacy:BTree(box=%s)/%s%s" % (bn, st, suffix), stats, **kw)
+    else:
+        res.stat("legacy_btree_not_applicable_1d_or_per_axis")
     for name, vinp, fn in variants:
         try:
             lv = linkcommon.run_impl(vinp) if fn is None else fn(inp)
+        except LegacySkip as e:
+            res.stat("variant_legacy_btree_skipped_" + str(e))
+            continue
         except Exception as e:   # an entry point that crashes on an input others accept
             res.violation("property-violation", "%s raised %s: %s" % (name, type(e).__name__, str(e)[:200]),
                           signature=dict(what="variant-crashed", variant=name,
@@ -178,8 +386,11 @@ def run_case(ctx, inp):
             res.stat("variant_skipped")
             continue
         res.stat("variant_" + name.split(":")[0])
+        for st in legacy_meta.get(name, {}).get("stats", []):
+            res.stat("variant_" + st)
+        btree = legacy_meta.get(name, {}).get("btree", False)
         raised = any(l[2] is None for l in lv)
-        drop = name == "strategy:drop"
+        drop = name in ("strategy:drop", "legacy:KDTree/drop")
         numba = name in ("strategy:numba", "strategy:hybrid", "strategy:auto")
         if raised != ref_raised:
             if numba and raised:
@@ -187,6 +398,12 @@ def run_case(ctx, inp):
                 continue
             if name.startswith("entry:link+") or drop:
                 res.stat("raise_not_comparable")
+                continue
+            if btree and ((raised and not unique and not ref_raised)
+                          or (ref_raised and exact_range_pair(inp))):
+                # the hash grid has no 10-neighbour cap (its sub-nets can be larger) and does not
+                # take pairs at exactly search_range (its sub-nets can be smaller)
+                res.stat("btree_raise_not_comparable")
                 continue
             res.violation("property-violation", "%s %s SubnetOversizeException but the reference %s"
                           % (name, "raised" if raised else "did not raise",
@@ -198,6 +415,8 @@ def run_case(ctx, inp):
         if mv.get("verdict") not in ("ok", "capped", "expect-oversize"):
             reason = str(mv.get("reason")).replace("_", " ")
             omsg = linkcommon.oracle_levels(ref_inp, lv, check_optimal=not drop)
+            if omsg is None and drop:
+                omsg = drop_oracle(ref_inp, lv)
             if omsg is not None:
                 res.violation("property-violation", "%s: %s" % (name, omsg), impl=lv, model=mv,
                               signature=dict(what=reason, variant=name))
